@@ -5,6 +5,13 @@
 // scopes numbered in the order the model creates them); Coq executes them and must predict every report.
 // Touches (reads and writes of let variables that are visible, hence possibly shared) give the race detector
 // something to look at: in the model they are no operation at all.
+//
+// History shapes: a "spawner" is a closure (a lambda made inside a let and kept in a variable) whose body starts
+// routines; it is CALLED SEVERAL TIMES, from different places (directly, from a fresh let, from two nested lets, from
+// the body of another lambda).  Every call gives the body a scope with two parents: the closure's scope and the
+// caller's.  An "inst" is a synchronized flavors instance whose method starts routines: Instance.Receive gives the
+// method's scope the parents [instance scope, sender's scope].  After the first call has started a routine the first
+// parent is synchronized - run has to go on to the second one all the same.
 package c17
 
 import (
@@ -15,41 +22,116 @@ import (
 )
 
 type snode struct {
-	kind string // let | call | deepcall | run | obs | touch
-	id   int
+	kind string // let | call | deepcall | run | obs | touch | spawner | callf | inst | send
+	id   int    // absolute id (probe tag, variable name); in a template: the local id
 	kids []*snode
-	v    int // touch: id of the let variable
+	v    string // touch: the variable
+	// spawner / inst: the body of the closure / of the method (a template: local ids, local run numbers)
+	tmpl     []*snode
+	tmplIDs  int
+	tmplRuns int
+	runIdx   int // template run node: its number within the template
+	// callf / send: one call
+	target  *snode
+	wrap    int // 0 called directly, 1 from a fresh let, 2 from two nested lets, 3 from the body of another lambda
+	tagBase int
+	ridBase int
+	lispRid int // run node outside a template: the rid in the lisp text
 }
 
 type scopeScenario struct {
-	root   []*snode
-	nextID int
-	nrun   int
+	serial  int // makes method names unique within a worker process
+	root    []*snode
+	nextID  int
+	nrun    int
+	nextRid int
+	setup   []string
 }
 
-func genScopeTree(r *common.Rng, sc *scopeScenario, depth int, vars []int, budget *int) []*snode {
+type tmplCtx struct {
+	owner *snode
+	ids   int
+	runs  int
+}
+
+func (sc *scopeScenario) varName(id int, t *tmplCtx) string {
+	if t != nil {
+		return fmt.Sprintf("a%dt%d", t.owner.id, id)
+	}
+	return fmt.Sprintf("a%d", id)
+}
+
+// gen: one level of the tree.  t != nil: inside the template of t.owner (ids and run numbers are local).
+// targets: the spawners / instances that may be called here (none inside a template or below a run: the body of a
+// spawner logs into `log`, which must be the log of the routine that makes the call).
+func (sc *scopeScenario) gen(r *common.Rng, depth int, vars []string, budget *int, t *tmplCtx, targets []*snode) []*snode {
+	newID := func() int {
+		if t != nil {
+			t.ids++
+			return t.ids
+		}
+		sc.nextID++
+		return sc.nextID
+	}
 	var out []*snode
 	n := 1 + r.Intn(4)
 	for k := 0; k < n && *budget > 0; k++ {
 		*budget--
-		sc.nextID++
-		nd := &snode{id: sc.nextID}
+		nd := &snode{id: newID()}
 		x := r.Intn(100)
 		switch {
-		case x < 22 && depth < 4:
+		case x < 18 && depth < 4:
 			nd.kind = "let"
-			nd.kids = genScopeTree(r, sc, depth+1, append(append([]int(nil), vars...), nd.id), budget)
-		case x < 34 && depth < 4:
+			nd.kids = sc.gen(r, depth+1, append(append([]string(nil), vars...), sc.varName(nd.id, t)), budget, t, targets)
+		case x < 28 && depth < 4:
 			nd.kind = "call"
-			nd.kids = genScopeTree(r, sc, depth+1, vars, budget)
-		case x < 44 && depth < 3:
+			nd.kids = sc.gen(r, depth+1, vars, budget, t, targets)
+		case x < 36 && depth < 3:
 			nd.kind = "deepcall"
-			nd.kids = genScopeTree(r, sc, depth+1, vars, budget)
-		case x < 62 && sc.nrun < 6:
+			nd.kids = sc.gen(r, depth+1, vars, budget, t, targets)
+		case x < 52 && sc.nrun < 7:
 			nd.kind = "run"
 			sc.nrun++
-			nd.kids = genScopeTree(r, sc, depth+1, vars, budget)
-		case x < 80 && len(vars) > 0:
+			if t != nil {
+				nd.runIdx = t.runs
+				t.runs++
+			}
+			nd.kids = sc.gen(r, depth+1, vars, budget, t, nil)
+		case x < 62 && t == nil && depth < 3 && *budget >= 4 && sc.nrun < 5:
+			// a spawner or an instance with a method: the template first (its runs count for every call)
+			nd.kind = "spawner"
+			tvars := vars
+			if r.Chance(40) {
+				nd.kind = "inst"
+				tvars = nil // a method body sees the caller's variables only dynamically: it touches its own lets
+			}
+			tc := &tmplCtx{owner: nd}
+			save := sc.nrun
+			tb := 2 + r.Intn(5)
+			nd.tmpl = sc.gen(r, depth+1, tvars, &tb, tc, nil)
+			if tc.runs == 0 { // a spawner spawns
+				tc.ids++
+				run := &snode{kind: "run", id: tc.ids, runIdx: 0}
+				tc.ids++
+				run.kids = []*snode{{kind: "obs", id: tc.ids}}
+				tc.runs = 1
+				nd.tmpl = append([]*snode{run}, nd.tmpl...)
+			}
+			sc.nrun = save
+			nd.tmplIDs, nd.tmplRuns = tc.ids, tc.runs
+			nd.kids = sc.gen(r, depth+1, vars, budget, t, append(append([]*snode(nil), targets...), nd))
+			// called at least twice, the second time from a place of its own
+			for c := 0; c < 2; c++ {
+				if sc.nrun+nd.tmplRuns <= 8 {
+					nd.kids = append(nd.kids, sc.newCall(r, nd, []int{r.Intn(4), 1 + r.Intn(3)}[c]), &snode{kind: "obs", id: newID()})
+				}
+			}
+		case x < 72 && len(targets) > 0 && sc.nrun+targets[len(targets)-1].tmplRuns <= 8:
+			*nd = *sc.newCall(r, targets[r.Intn(len(targets))], r.Intn(4))
+			if sc.nrun > 8 {
+				nd.kind = "obs"
+			}
+		case x < 86 && len(vars) > 0:
 			nd.kind = "touch"
 			nd.v = vars[r.Intn(len(vars))]
 		default:
@@ -58,57 +140,132 @@ func genScopeTree(r *common.Rng, sc *scopeScenario, depth int, vars []int, budge
 		out = append(out, nd)
 	}
 	// every level ends with a probe: what the lets and runs before it did to the chain
-	sc.nextID++
-	out = append(out, &snode{kind: "obs", id: sc.nextID})
+	out = append(out, &snode{kind: "obs", id: newID()})
 	return out
 }
 
-func (sc *scopeScenario) lisp(b *strings.Builder, nodes []*snode, rid *int, ridOf map[*snode]int) {
+// newCall: one call of a spawner / one send to an instance: a copy of the template with absolute ids
+func (sc *scopeScenario) newCall(r *common.Rng, target *snode, wrap int) *snode {
+	sc.nextID++
+	nd := &snode{kind: "callf", id: sc.nextID, target: target, wrap: wrap}
+	if target.kind == "inst" {
+		nd.kind = "send"
+	}
+	nd.tagBase = sc.nextID
+	sc.nextID += target.tmplIDs
+	nd.ridBase = sc.nextRid
+	sc.nextRid += target.tmplRuns
+	sc.nrun += target.tmplRuns
+	var copyOf func(nodes []*snode) []*snode
+	copyOf = func(nodes []*snode) []*snode {
+		var out []*snode
+		for _, m := range nodes {
+			c := *m
+			c.id = nd.tagBase + m.id
+			if m.kind == "run" {
+				c.lispRid = nd.ridBase + m.runIdx
+			}
+			c.kids = copyOf(m.kids)
+			out = append(out, &c)
+		}
+		return out
+	}
+	nd.kids = copyOf(target.tmpl)
+	return nd
+}
+
+func (sc *scopeScenario) lisp(b *strings.Builder, nodes []*snode, t *snode) {
+	tag := func(id int) string {
+		if t != nil {
+			return fmt.Sprintf("(+ q %d)", id)
+		}
+		return fmt.Sprint(id)
+	}
+	vn := func(id int) string {
+		if t != nil {
+			return fmt.Sprintf("a%dt%d", t.id, id)
+		}
+		return fmt.Sprintf("a%d", id)
+	}
 	for _, nd := range nodes {
 		switch nd.kind {
 		case "let":
-			fmt.Fprintf(b, " (let ((a%d 0))", nd.id)
-			sc.lisp(b, nd.kids, rid, ridOf)
+			fmt.Fprintf(b, " (let ((%s 0))", vn(nd.id))
+			sc.lisp(b, nd.kids, t)
 			b.WriteString(")")
 		case "call":
-			fmt.Fprintf(b, " (funcall (lambda (q%d)", nd.id)
-			sc.lisp(b, nd.kids, rid, ridOf)
+			fmt.Fprintf(b, " (funcall (lambda (p%s)", vn(nd.id))
+			sc.lisp(b, nd.kids, t)
 			b.WriteString(") 0)")
 		case "deepcall":
-			fmt.Fprintf(b, " (let ((f%d nil)) (setq f%d (lambda (q%d)", nd.id, nd.id, nd.id)
-			sc.lisp(b, nd.kids, rid, ridOf)
-			fmt.Fprintf(b, ")) (let ((z%d 0)) (funcall f%d 0)))", nd.id, nd.id)
+			fmt.Fprintf(b, " (let ((f%s nil)) (setq f%s (lambda (p%s)", vn(nd.id), vn(nd.id), vn(nd.id))
+			sc.lisp(b, nd.kids, t)
+			fmt.Fprintf(b, ")) (let ((z%s 0)) (funcall f%s 0)))", vn(nd.id), vn(nd.id))
 		case "run":
-			fmt.Fprintf(b, " (run (let ((log nil))")
-			sc.lisp(b, nd.kids, rid, ridOf)
-			fmt.Fprintf(b, " (channel-push res (list %d log))))", ridOf[nd])
+			b.WriteString(" (run (let ((log nil))")
+			sc.lisp(b, nd.kids, t)
+			if t != nil {
+				fmt.Fprintf(b, " (channel-push res (list (+ r %d) log))))", nd.runIdx)
+			} else {
+				fmt.Fprintf(b, " (channel-push res (list %d log))))", nd.lispRid)
+			}
 		case "obs":
-			fmt.Fprintf(b, " (setq log (cons (list %d (vchain)) log))", nd.id)
+			fmt.Fprintf(b, " (setq log (cons (list %s (vchain)) log))", tag(nd.id))
 		case "touch":
-			fmt.Fprintf(b, " (setq a%d (+ a%d 1))", nd.v, nd.v)
+			fmt.Fprintf(b, " (setq %s (+ %s 1))", nd.v, nd.v)
+		case "spawner":
+			fmt.Fprintf(b, " (let ((f%d nil)) (setq f%d (lambda (q r)", nd.id, nd.id)
+			sc.lisp(b, nd.tmpl, nd)
+			b.WriteString("))")
+			sc.lisp(b, nd.kids, t)
+			b.WriteString(")")
+		case "inst":
+			var m strings.Builder
+			fmt.Fprintf(&m, "(defmethod (c17sflav :m%dx%d) (q r)", sc.serial, nd.id)
+			sc.lisp(&m, nd.tmpl, nd)
+			m.WriteString(")")
+			sc.setup = append(sc.setup, m.String())
+			fmt.Fprintf(b, " (let ((o%d (make-instance 'c17sflav))) (set-synchronized o%d t)", nd.id, nd.id)
+			sc.lisp(b, nd.kids, t)
+			b.WriteString(")")
+		case "callf", "send":
+			call := fmt.Sprintf("(funcall f%d %d %d)", nd.target.id, nd.tagBase, nd.ridBase)
+			if nd.kind == "send" {
+				call = fmt.Sprintf("(send o%d :m%dx%d %d %d)", nd.target.id, sc.serial, nd.target.id, nd.tagBase, nd.ridBase)
+			}
+			switch nd.wrap {
+			case 1:
+				call = fmt.Sprintf("(let ((w%d 0)) %s)", nd.id, call)
+			case 2:
+				call = fmt.Sprintf("(let ((w%d 0)) (let ((v%d 0)) %s))", nd.id, nd.id, call)
+			case 3:
+				call = fmt.Sprintf("(funcall (lambda (w%d) %s) 0)", nd.id, call)
+			}
+			b.WriteString(" " + call)
 		}
 	}
 }
 
 // flatten numbers routines and scopes the way the model creates them (routine 0 = the harness, which starts the
 // root routine; then every routine in turn, from its first operation to its last) and returns the operations of
-// every routine as a Gallina term, the probes of every routine in program order, and the lisp rid of each run node
-func (sc *scopeScenario) flatten() (codes []string, probes [][]int, ridOf map[*snode]int) {
+// every routine as a Gallina term, and for every routine its lisp rid and its probes in program order
+func (sc *scopeScenario) flatten() (codes []string, rids []int, probes [][]int) {
 	type pending struct {
 		kids  []*snode
 		spawn int // scope the routine is started in
+		rid   int
 	}
-	ridOf = map[*snode]int{}
-	queue := []pending{{kids: sc.root, spawn: 0}}
+	queue := []pending{{kids: sc.root, spawn: 0, rid: 0}}
 	codes = append(codes, "[XOp SRun]") // the harness evaluates the (run ...) form of the root routine in scope 0
 	nscopes := 1
-	nroutines := 2 // 0: harness, 1: root routine
+	scopeOf := map[*snode]int{} // spawner: the scope its closure is made in; inst: the instance's scope
 	for len(queue) > 0 {
 		cur := queue[0]
 		queue = queue[1:]
 		var ops []string
 		var obs []int
 		stack := []int{cur.spawn}
+		top := func() int { return stack[len(stack)-1] }
 		push := func(op string) {
 			ops = append(ops, "XOp "+op)
 			stack = append(stack, nscopes)
@@ -127,12 +284,12 @@ func (sc *scopeScenario) flatten() (codes []string, probes [][]int, ridOf map[*s
 					walk(nd.kids)
 					pop()
 				case "call":
-					push(fmt.Sprintf("(SCall %d)", stack[len(stack)-1]))
+					push(fmt.Sprintf("(SCall %d)", top()))
 					walk(nd.kids)
 					pop()
 				case "deepcall":
 					push("SLet")
-					a := stack[len(stack)-1]
+					a := top()
 					push("SLet")
 					push(fmt.Sprintf("(SCall %d)", a))
 					walk(nd.kids)
@@ -141,18 +298,61 @@ func (sc *scopeScenario) flatten() (codes []string, probes [][]int, ridOf map[*s
 					pop()
 				case "run":
 					ops = append(ops, "XOp SRun")
-					ridOf[nd] = nroutines - 1 // lisp rid: the harness itself does not report
-					nroutines++
-					queue = append(queue, pending{kids: nd.kids, spawn: stack[len(stack)-1]})
+					queue = append(queue, pending{kids: nd.kids, spawn: top(), rid: nd.lispRid})
 				case "obs":
 					ops = append(ops, fmt.Sprintf("XObs %d", nd.id))
 					obs = append(obs, nd.id)
+				case "spawner":
+					push("SLet")
+					scopeOf[nd] = top()
+					walk(nd.kids)
+					pop()
+				case "inst":
+					push("SLet")
+					ops = append(ops, "XOp SInst") // the instance's own scope: synchronized, no parents, on no stack
+					scopeOf[nd] = nscopes
+					nscopes++
+					walk(nd.kids)
+					pop()
+				case "callf", "send":
+					wraps := 0
+					switch nd.wrap {
+					case 1:
+						push("SLet")
+						wraps = 1
+					case 2:
+						push("SLet")
+						push("SLet")
+						wraps = 2
+					case 3:
+						push(fmt.Sprintf("(SCall %d)", top()))
+						wraps = 1
+					}
+					if nd.kind == "callf" {
+						push(fmt.Sprintf("(SCall %d)", scopeOf[nd.target])) // Lambda.Call: [closure scope; caller's scope]
+						walk(nd.kids)
+						pop()
+					} else {
+						// Instance.Receive: [instance scope; sender's scope]; Method.Call / the daemon's Lambda.Call put
+						// two more scopes on top of it: [that one] and [the second; the second]
+						push(fmt.Sprintf("(SCall %d)", scopeOf[nd.target]))
+						push("SLet")
+						push(fmt.Sprintf("(SCall %d)", top()))
+						walk(nd.kids)
+						pop()
+						pop()
+						pop()
+					}
+					for ; wraps > 0; wraps-- {
+						pop()
+					}
 				}
 			}
 		}
 		push("SLet") // the routine's own (let ((log nil)) ...)
 		walk(cur.kids)
 		codes = append(codes, "["+strings.Join(ops, "; ")+"]")
+		rids = append(rids, cur.rid)
 		probes = append(probes, obs)
 	}
 	return
@@ -160,24 +360,97 @@ func (sc *scopeScenario) flatten() (codes []string, probes [][]int, ridOf map[*s
 
 type scopeJob struct {
 	Job    job
+	Shape  string
 	Codes  []string
+	Rids   []int
 	Probes [][]int
+}
+
+var scopeSerial int
+
+func (sc *scopeScenario) job(r *common.Rng, shape string) scopeJob {
+	sc.nextRid = 1 // 0: the root routine
+	// the calls were created during generation and took their rids then: renumber everything in one pass
+	var renum func(nodes []*snode)
+	renum = func(nodes []*snode) {
+		for _, nd := range nodes {
+			switch nd.kind {
+			case "run":
+				nd.lispRid = sc.nextRid
+				sc.nextRid++
+			case "callf", "send":
+				nd.ridBase = sc.nextRid
+				sc.nextRid += nd.target.tmplRuns
+				var fix func(ns []*snode)
+				fix = func(ns []*snode) {
+					for _, m := range ns {
+						if m.kind == "run" {
+							m.lispRid = nd.ridBase + m.runIdx
+						}
+						fix(m.kids)
+					}
+				}
+				fix(nd.kids)
+				continue
+			}
+			renum(nd.kids)
+		}
+	}
+	renum(sc.root)
+	codes, rids, probes := sc.flatten()
+	var b strings.Builder
+	b.WriteString("(run (let ((log nil))")
+	sc.lisp(&b, sc.root, nil)
+	b.WriteString(" (channel-push res (list 0 log))))")
+	return scopeJob{Job: job{Kind: "lisp", Setup: sc.setup, Runs: []string{b.String()}, Results: len(probes), Procs: common.Pick(r, procChoices)},
+		Shape: shape, Codes: codes, Rids: rids, Probes: probes}
+}
+
+// sysScenarios: the systematic block.  For a spawner closure and for a synchronized instance with a method: every
+// pair of places the first and the second call are made from (4 x 4) x the routine is started directly in the body /
+// inside a let of the body.  The body probes before and after, the routine it starts probes, the caller probes after
+// each call.
+func sysScenarios(r *common.Rng) []scopeJob {
+	var out []scopeJob
+	for _, kind := range []string{"spawner", "inst"} {
+		for w1 := 0; w1 < 4; w1++ {
+			for w2 := 0; w2 < 4; w2++ {
+				for pos := 0; pos < 2; pos++ {
+					scopeSerial++
+					sc := &scopeScenario{serial: scopeSerial}
+					sc.nextID = 1
+					sp := &snode{kind: kind, id: 1}
+					run := &snode{kind: "run", id: 2, runIdx: 0, kids: []*snode{{kind: "obs", id: 3}}}
+					body := []*snode{{kind: "obs", id: 1}, run, {kind: "obs", id: 4}}
+					if pos == 1 {
+						body = []*snode{{kind: "obs", id: 1}, {kind: "let", id: 5, kids: []*snode{run, {kind: "obs", id: 6}}}, {kind: "obs", id: 4}}
+					}
+					sp.tmpl, sp.tmplIDs, sp.tmplRuns = body, 6, 1
+					c1 := sc.newCall(r, sp, w1)
+					sc.nextID++
+					o1 := &snode{kind: "obs", id: sc.nextID}
+					c2 := sc.newCall(r, sp, w2)
+					sc.nextID++
+					o2 := &snode{kind: "obs", id: sc.nextID}
+					sp.kids = []*snode{c1, o1, c2, o2}
+					sc.nextID++
+					sc.root = []*snode{sp, {kind: "obs", id: sc.nextID}}
+					out = append(out, sc.job(r, fmt.Sprintf("scopes-sys-%s", kind)))
+				}
+			}
+		}
+	}
+	return out
 }
 
 func genScopes(ctx *common.Ctx, n int) []scopeJob {
 	var out []scopeJob
 	for k := 0; k < n; k++ {
-		sc := &scopeScenario{}
+		scopeSerial++
+		sc := &scopeScenario{serial: scopeSerial}
 		budget := 8 + ctx.Rng.Intn(22)
-		sc.root = genScopeTree(ctx.Rng, sc, 0, nil, &budget)
-		codes, probes, ridOf := sc.flatten()
-		var b strings.Builder
-		b.WriteString("(run (let ((log nil))")
-		rid := 0
-		sc.lisp(&b, sc.root, &rid, ridOf)
-		b.WriteString(" (channel-push res (list 0 log))))")
-		out = append(out, scopeJob{Job: job{Kind: "lisp", Runs: []string{b.String()}, Results: len(probes), Procs: common.Pick(ctx.Rng, procChoices)},
-			Codes: codes, Probes: probes})
+		sc.root = sc.gen(ctx.Rng, 0, nil, &budget, nil, nil)
+		out = append(out, sc.job(ctx.Rng, "scopes"))
 	}
 	return out
 }
@@ -197,15 +470,16 @@ func scopeCase(sj *scopeJob, oc *jobOutcome) (term string, complaint string) {
 	}
 	var obs []string
 	for i, want := range sj.Probes {
-		if i >= len(res.Fin) || !res.Fin[i] {
-			return "", fmt.Sprintf("routine %d did not report", i)
+		rid := sj.Rids[i]
+		if rid >= len(res.Fin) || !res.Fin[rid] {
+			return "", fmt.Sprintf("routine %d did not report", rid)
 		}
-		if len(res.Logs[i]) != len(want) {
-			return "", fmt.Sprintf("routine %d reported %d probes, expected %d", i, len(res.Logs[i]), len(want))
+		if len(res.Logs[rid]) != len(want) {
+			return "", fmt.Sprintf("routine %d reported %d probes, expected %d", rid, len(res.Logs[rid]), len(want))
 		}
-		for k, e := range res.Logs[i] {
+		for k, e := range res.Logs[rid] {
 			if e.Tag != want[k] {
-				return "", fmt.Sprintf("routine %d, probe %d has tag %d, expected %d", i, k, e.Tag, want[k])
+				return "", fmt.Sprintf("routine %d, probe %d has tag %d, expected %d", rid, k, e.Tag, want[k])
 			}
 			flags := strings.Trim(e.Str, `"`)
 			var fs []string
@@ -216,7 +490,7 @@ func scopeCase(sj *scopeJob, oc *jobOutcome) (term string, complaint string) {
 				case '0':
 					fs = append(fs, "false")
 				default:
-					return "", fmt.Sprintf("routine %d, probe %d reported %q", i, k, e.Str)
+					return "", fmt.Sprintf("routine %d, probe %d reported %q", rid, k, e.Str)
 				}
 			}
 			obs = append(obs, fmt.Sprintf("(%d, [%s])", e.Tag, strings.Join(fs, ";")))
